@@ -331,7 +331,7 @@ void free_string (char *str) {
   assert (b == findblock (str)); /* ensure it's a shared string */
 
   /*
-   * if a string has been ref'd USHRT_MAX times then we assume that its used
+   * if a string has been ref'd UINT_MAX times then we assume that its used
    * often enough to justify never freeing it.
    */
   if (!REFS (b)) {
